@@ -19,7 +19,8 @@ TRUSTED = ["sequentially consistent atomics; plain (non-atomic) accesses to anch
            "the API-level oracle tables of harness/c55.cc (incarnations, holders, slice ownership, what each writer appended)"]
 ASSUMPTIONS = ["callers respect the method contracts encoded in `call`: setKey only by the writer before startAppending; slices are taken from the free pool, prepared, filled and "
                "then linked at the end of the chain; only slices handed to StoreMapCleaner return to the pool; keys are non-zero; a session works on one entry at a time",
-               "paranoid_hit_validation is off (validateHit is not modelled); no updates (openForUpdating/closeForUpdating are not modelled: fileNos never relocate)"]
+               "paranoid_hit_validation is off (validateHit is not modelled); the theorems and the model cover no updates (openForUpdating/closeForUpdating/abortUpdating "
+               "are exercised on the real code under the API-level oracle only)"]
 MANIFEST = {
     "text": "partial: for every reachable configuration of any number of sessions under any interleaving of single atomic operations of StoreMap.cc over the C54 lock specification "
             "(openForWritingAt, setKey, slice append, startAppending, closeForWriting, abortWriting, openForReadingAt, chain walk, closeForReading, closeForReadingAndFreeIdle, "
@@ -29,7 +30,8 @@ MANIFEST = {
             "deleted_not_opened_after (full when the translator finds a setKey() that only sets the flag), deleted_not_opened_after_counterexample (the code as it stands: "
             "known finding C55-setkey-clears-mark), validated_runs_are_reachable; two inductive invariants (AInv: 11 counting clauses per anchor; SInv: slice ownership and "
             "chain structure). Trace validation of the model's atomic actions against scheduler-controlled real code in two granularities (lock methods atomic / every atomic). "
-            "Missing for full: updaters (openForUpdating/closeForUpdating/abortUpdating and the fileNos relocation) are not modelled.",
+            "Missing for full: updaters (openForUpdating/closeForUpdating/abortUpdating and the fileNos relocation) are not modelled; they run on the real code under the "
+            "API-level oracle, which shows that with them the statement is false (known finding C55-update-frees-shared-suffix).",
     "note": "trusted: Lean kernel; SC memory model; the C54 lock specification as the lock layer of the theorems; the sed-instrumentation, the coroutine scheduler and the lock-method "
             "scope guard; API-level oracle in harness/c55.cc. Not modelled: updates/splicing, purgeOne, validateHit, weak-memory effects, torn reads of the key, process death "
             "while holding locks, termination of freeChainAt",
@@ -68,11 +70,12 @@ def build(stage):
     return ProcHarness([build_exe(stage)])
 
 RULE = ("scenario = mode x map size N (2..4 anchors = slices) x 2..4 virtual threads, each a list of sessions (writer: OW,SK,AS*,[SA,AS*],CW|AW; reader: OR,RD*,CR|CF; "
-        "deleter: FE|FK) x a schedule that picks which thread performs its next step (one atomic operation of StoreMap.cc, one whole lock method in mode A, "
+        "deleter: FE|FK; updater: OU,UA*,CU|AU) x a schedule that picks which thread performs its next step (one atomic operation of StoreMap.cc, one whole lock method in mode A, "
         "one call marker); streams: valid sessions on contended anchors, boundary (pool exhaustion, overwrite of complete/marked/empty anchors, wrong keys and "
         "positions), mutations (ops dropped/duplicated/swapped, sessions cut), plus in thorough every schedule of length 12..15 over 2 threads (3^8 over 3) for a set "
         "of session tuples (and of fine-grained mode F tuples around abort/open/free/overwrite); in both modes the complete event trace, results and final map, lock and pool "
-        "state are compared with the model (trace validation; mode F against the composition with the C54 lock model); "
+        "state are compared with the model (trace validation; mode F against the composition with the C54 lock model); scenarios with updater calls run on the real code "
+        "under the oracle only; "
         "non-trivial = at least two threads performed steps on the same anchor; distinct = distinct scenario lines")
 
 
@@ -111,11 +114,24 @@ def gen_deleter(rng, N, f):
     return ["FK:%d" % (rng.choice(keys_of(N, f)) if rng.chance(9, 10) else rng.range(1, 3 * N))]
 
 
-def gen_thread(rng, N, t, hot):
+def gen_updater(rng, N, t, f, j0):
+    k = rng.choice(keys_of(N, f)) if rng.chance(9, 10) else rng.range(1, 3 * N)
+    ops = ["OU:%d:%d" % (f, k)]
+    for j in range(rng.range(0, 2)):
+        ops.append("UA:%d" % (10 * (t + 1) + j0 + j))
+    ops.append("CU:%d" % rng.below(3) if rng.chance(4, 5) else "AU")
+    return ops
+
+
+def gen_thread(rng, N, t, hot, updaters=False):
     ops = []
     j0 = 0
     for _ in range(rng.range(1, 3)):
         f = hot if rng.chance(3, 4) else rng.below(N)
+        if updaters and rng.chance(1, 3):
+            ops += gen_updater(rng, N, t, f, j0)
+            j0 += 5
+            continue
         r = rng.below(10)
         if r < 4:
             w = gen_writer(rng, N, t, f, j0)
@@ -188,6 +204,28 @@ def cases(rng, tier):
         mode = "F" if rng.chance(1, 5) else "A"      # F: every atomic operation of the lock is a step too (oracle only)
         steps = sum(len(o) for o in per) * (9 if mode == "F" else 5)
         yield fmt(mode, N, per, gen_schedule(rng, n, rng.range(0, steps)))
+    # updaters (oracle only: not modelled): writers, readers, updaters and deleters on a larger map
+    for c in range(n_rand // 3):
+        N = rng.choice([4, 5, 6])
+        n = rng.choice([3, 3, 4])
+        hot = rng.below(N)
+        per = [gen_thread(rng, N, t, hot, updaters=(t > 0)) for t in range(n)]
+        per[0] = ["OW:%d:1" % hot, "SK:%d:0" % (hot + N), "AS:11", "AS:12", "AS:13", "CW"] + (per[0] if rng.chance(1, 2) else [])
+        mode = "F" if rng.chance(1, 6) else "A"
+        steps = sum(len(o) for o in per) * (10 if mode == "F" else 6)
+        pre = [0] * (rng.choice([0, 27, 27, 27]) if mode == "A" else rng.choice([0, 46, 46]))      # usually the entry is complete first
+        yield fmt(mode, N, per, pre + gen_schedule(rng, n, rng.range(steps // 3, steps)))
+    # an entry is read, updated, and its fresh edition is then deleted / purged / overwritten while the old readers go on
+    for c in range(n_rand // 10):
+        N = 5
+        k = 2 + N * rng.below(2)
+        w = ["OW:2:1", "SK:%d:0" % k, "AS:11", "AS:12", "AS:13", "CW"]
+        rd = ["OR:2:%d" % k] + ["RD"] * rng.range(1, 3) + [rng.choice(["CR", "CF"])]
+        up = ["OU:2:%d" % k, "UA:21"] + (["UA:22"] if rng.chance(1, 3) else []) + ["CU:%d" % rng.below(3)] + rng.choice([[], ["OR:0:%d" % k, "RD", "CR"], ["FK:%d" % k]])
+        dl = rng.choice([["FK:%d" % k], ["FE:%d" % rng.below(N)], ["OW:%d:1" % rng.below(N), "SK:9:0", "AS:31", "CW"], ["OR:%d:%d" % (rng.below(N), k), "RD", "CF"]])
+        per = [w, up, rd, dl]
+        tail = gen_schedule(rng, 4, rng.range(20, 160))
+        yield fmt("A", N, per, [0] * 27 + [2] * rng.choice([0, 3, 3]) + [1] * rng.choice([0, 20, 60]) + tail)
     # boundary: pool exhaustion and reuse of freed slices, overwriting, prefilled map then contention
     for c in range(n_rand // 10):
         N = 2
@@ -235,6 +273,8 @@ def split_out(impl):
 def compare(line, impl, model):
     """trace, results and final state must agree (the oracle's verdict is not part of the comparison); in mode F the model is the
     composition with the C54 lock model and must also report that the lock specification allowed every concrete lock result"""
+    if model == "unmodelled":
+        return True        # updater calls: exercised on the real code, judged by the oracle only
     a, b = split_out(impl), split_out(model)
     if a is None or b is None:
         return impl == model
@@ -288,7 +328,9 @@ def tag(line, impl, model):
 def classify(line, impl, why):
     """C55-setkey-clears-mark: a reader opened a deleted entry AND the trace shows setKey()'s store to waitingToBeFreed (the first
     atomic operation after that thread's call marker) overwriting a set flag of that anchor with 0."""
-    if "reader-opened-deleted-entry-" not in (why or ""):
+    if ("shared-slice-freed-while-entry-is-read-" in (why or "") or "shared-slice-changed-while-entry-is-read-" in (why or "")) and re.search(r"\bCU:", line):
+        return "C55-update-frees-shared-suffix"
+    if "reader-opened-deleted-entry-" not in (why or "") and "updater-opened-deleted-entry-" not in (why or ""):
         return None
     f = why.rsplit("-", 1)[-1]
     last = {}
